@@ -397,15 +397,13 @@ func (v *LogScopeVariables) Get(s context.Scope, name string) (value.Value, erro
 
 func (v *LogScopeVariables) getFromRegex(name string) (value.Value, error) {
 	// HTTP response header matching
+	// Headers are read and written through the shared helpers like in the other scopes
+	// (not-set distinction, sub-fields, value up to the first line feed)
 	if match := responseHttpHeaderRegex.FindStringSubmatch(name); match != nil {
-		return &value.String{
-			Value: v.ctx.Response.Header.Get(match[1]),
-		}, nil
+		return getResponseHeaderValue(v.ctx.Response, match[1]), nil
 	}
 	if match := backendRequestHttpHeaderRegex.FindStringSubmatch(name); match != nil {
-		return &value.String{
-			Value: v.ctx.BackendRequest.Header.Get(match[1]),
-		}, nil
+		return getRequestHeaderValue(v.ctx.BackendRequest, match[1]), nil
 	}
 	return v.base.getFromRegex(name)
 }
@@ -473,8 +471,7 @@ func (v *LogScopeVariables) Set(s context.Scope, name, operator string, val valu
 		if err := limitations.CheckProtectedHeader(match[1]); err != nil {
 			return errors.WithStack(err)
 		}
-		v.ctx.Response.Header.Set(match[1], val.String())
-		return nil
+		return assignResponseHeaderValue(v.ctx.Response, match[1], operator, val)
 	}
 
 	// If not found, pass to all scope value
@@ -505,6 +502,6 @@ func (v *LogScopeVariables) Unset(s context.Scope, name string) error {
 	if err := limitations.CheckProtectedHeader(match[1]); err != nil {
 		return errors.WithStack(err)
 	}
-	v.ctx.Response.Header.Del(match[1])
+	unsetResponseHeaderValue(v.ctx.Response, match[1])
 	return nil
 }
